@@ -22,6 +22,7 @@ type FuncResult struct {
 	Err      string // broken: contract error etc.
 	Secs     float64
 	ParamTerms map[string]string
+	AutoProved int
 	Fn      *ssa.Function
 	Args    []Value
 	Results []Value
@@ -32,6 +33,10 @@ type FuncResult struct {
 
 // buildVC generates all obligations for one function under its contract.
 func (e *Engine) buildVC(key string, con *Contract) (res *FuncResult) {
+	return e.buildVCx(key, con, nil)
+}
+
+func (e *Engine) buildVCx(key string, con *Contract, excl map[string]bool) (res *FuncResult) {
 	res = &FuncResult{Key: key, Contract: con}
 	defer func() {
 		if r := recover(); r != nil {
@@ -54,7 +59,7 @@ func (e *Engine) buildVC(key string, con *Contract) (res *FuncResult) {
 	extraDecls, extraSeen = nil, map[string]bool{}
 	defer func() { c.Extra = append([]string{}, extraDecls...) }()
 	x := &Exec{E: e, C: c, Entry: State{}, Top: fn, TopCon: con, Assumed: map[string]bool{}, Inlined: map[string]bool{},
-		UsedCon: map[string]bool{}, nonnil: map[string]bool{}, knownLen: map[string]int{}, unfolded: map[string]bool{}, goalSeq: map[string]int{}}
+		UsedCon: map[string]bool{}, autoExcl: excl, Active: e.Active, nonnil: map[string]bool{}, knownLen: map[string]int{}, unfolded: map[string]bool{}, goalSeq: map[string]int{}}
 	res.Ctx = c
 	x.safetyTags = []string{"C08"}
 	if con != nil && len(con.SafetyTags) > 0 {
@@ -109,6 +114,9 @@ func (e *Engine) buildVC(key string, con *Contract) (res *FuncResult) {
 	ec, est, results := x.execBody(fr, BoolLit(true), st, args)
 	res.Fn, res.Args, res.Results, res.Entry, res.Exit, res.X = fn, args, results, entry, est, x
 	if con != nil {
+		// canary: some return is reachable (ensures false must not be provable)
+		cg := &Goal{Name: x.goalName(key, "canary", "return-reachable"), Func: key, Kind: "canary", Tags: tags, Text: "a return is reachable under the contract (ensures false is not provable)", ExpectSat: true}
+		c.AddGoal(cg, ec, BoolLit(true))
 		vars := x.contractVars(fn, args, results, "exit")
 		env := x.specEnv(est, entry, vars)
 		x.bindLets(con, env, key)
@@ -124,9 +132,6 @@ func (e *Engine) buildVC(key string, con *Contract) (res *FuncResult) {
 			x.oblige(key, "post", cl.Label, cl.Expr, tg, fmt.Sprintf("contracts_verif.go:%d", cl.Line), ec, t)
 		}
 		x.frameObligations(key, con, env, entry, est, ec, tags)
-		// canary: some return is reachable (ensures false must not be provable)
-		g := &Goal{Name: x.goalName(key, "canary", "return-reachable"), Func: key, Kind: "canary", Tags: tags, Text: "a return is reachable under the contract (ensures false is not provable)", ExpectSat: true}
-		c.AddGoal(g, ec, BoolLit(true))
 	}
 	res.Goals = c.Goals
 	res.Havocs = x.Havocs
@@ -136,6 +141,9 @@ func (e *Engine) buildVC(key string, con *Contract) (res *FuncResult) {
 }
 
 func (x *Exec) frameObligations(key string, con *Contract, env *SpecEnv, entry, exit State, ec Term, tags []string) {
+	if con.NoFrame {
+		return
+	}
 	allowed := map[string][]*ModTarget{}
 	whole := map[string]bool{}
 	for _, m := range con.Modifies {
@@ -160,6 +168,15 @@ func (x *Exec) frameObligations(key string, con *Contract, env *SpecEnv, entry, 
 	pre := env.withState(env.Old)
 	for _, name := range names {
 		if name == "alloc" || whole[name] {
+			continue
+		}
+		skip := false
+		for _, pre := range con.FrameSkip {
+			if strings.HasPrefix(name, pre) {
+				skip = true
+			}
+		}
+		if skip {
 			continue
 		}
 		fin := exit[name]
@@ -214,7 +231,7 @@ type runOpts struct {
 
 func (e *Engine) verifyOne(key string, con *Contract, o runOpts) *FuncResult {
 	start := time.Now()
-	res := e.buildVC(key, con)
+	res := e.buildVCFix(key, con, o)
 	if res.Err != "" {
 		return res
 	}
@@ -301,4 +318,50 @@ func (e *Engine) exportedAPI() []*ssa.Function {
 	}
 	sort.Slice(out, func(i, j int) bool { return fnKey(out[i]) < fnKey(out[j]) })
 	return out
+}
+
+// buildVCFix iterates the generated loop-frame candidates to a fixpoint (Houdini):
+// a candidate whose preservation cannot be proved is dropped and the VC rebuilt,
+// so that no surviving obligation was proved from a refuted candidate.
+func (e *Engine) buildVCFix(key string, con *Contract, o runOpts) *FuncResult {
+	excl := map[string]bool{}
+	for iter := 0; iter < 6; iter++ {
+		res := e.buildVCx(key, con, excl)
+		if res.Err != "" {
+			return res
+		}
+		var auto []*Goal
+		for _, g := range res.Goals {
+			if g.Kind == "auto-inv" {
+				auto = append(auto, g)
+			}
+		}
+		if len(auto) == 0 {
+			return res
+		}
+		discharge(res.Ctx, auto, dischargeOpts{Timeout: o.Timeout / 2, Workdir: o.Workdir, Par: o.Par})
+		dropped := 0
+		for _, g := range auto {
+			if g.Status != "proved" {
+				excl[g.Name] = true
+				dropped++
+			}
+		}
+		if dropped == 0 {
+			// keep only non-candidate goals for the main discharge; candidates are proved
+			var rest []*Goal
+			for _, g := range res.Goals {
+				if g.Kind != "auto-inv" {
+					rest = append(rest, g)
+				}
+			}
+			res.AutoProved = len(auto)
+			res.Goals = rest
+			for n := range excl {
+				res.Havocs = append(res.Havocs, "generated loop frame candidate dropped (state havoced): "+n)
+			}
+			return res
+		}
+	}
+	return &FuncResult{Key: key, Err: "loop frame candidates did not stabilise"}
 }
